@@ -55,6 +55,13 @@ def make_cases(rng, tier, diff_here):
         [{"kind": "full", "rules": [R("ra", 9), R("rb", 5), R("rc", 1)]}, {"kind": "incr", "rules": [R("rd", 7), R("rc", 20, "fail")]}, {"kind": "remove", "names": ["rb"]}],
         [{"kind": "full", "rules": [R("ra", 3), R("rb", 3), R("rc", 3)]}, {"kind": "incr", "rules": [R("rb", 3, "fail")]}, {"kind": "incr", "rules": [R("re", 3), R("ra", -1)]}],
     ]
+    # the very same text built AGAIN after the set was changed in between (a roll back): a full build replaces everything, every time
+    A = [R("ra", 9), R("rb", 5), R("rc", 1)]
+    hists += [
+        [{"kind": "full", "rules": A}, {"kind": "incr", "rules": [R("rb", 20, "fail")]}, {"kind": "full", "rules": A}],
+        [{"kind": "full", "rules": A}, {"kind": "remove", "names": ["ra"]}, {"kind": "full", "rules": A}],
+        [{"kind": "full", "rules": A}, {"kind": "full", "rules": A}, {"kind": "incr", "rules": [R("rd", 7)]}, {"kind": "remove", "names": ["rd", "rb"]}, {"kind": "full", "rules": A}],
+    ]
     MIN, MAX = -2 ** 63, 2 ** 63 - 1        # saliences whose differences overflow int64
     hists += [
         [{"kind": "full", "rules": [R("ra", 9), R("rb", 0)]}, {"kind": "incr", "rules": [R("rc", MIN)]}],
@@ -84,7 +91,7 @@ def make_cases(rng, tier, diff_here):
 
 
 RULE = ("systematic: rule sets of size 1-4 (thorough 1-5) over saliences {-2,0,0,3,7} (ties, negatives) x EVERY failing subset x both flags, through Execute and the two sorted selected variants "
-        "(names permuted); sets of size 2-4 x every failing subset x every position of a tag-setting rule (a failing rule included) x both flags through the two sorted stop-tag variants; rule sets installed through 18 (thorough 308) histories of full / incremental (moved and tied saliences, the int64 extremes, several rules per text) / removal (incl. absent names) operations, whose installed order must be the denoted set in non-increasing current salience; random: 200 (thorough 5000) calls with up to 7 (10) rules.")
+        "(names permuted); sets of size 2-4 x every failing subset x every position of a tag-setting rule (a failing rule included) x both flags through the two sorted stop-tag variants; rule sets installed through 21 (thorough 311) histories (three of them build the very same text again after an incremental update / a removal) of full / incremental (moved and tied saliences, the int64 extremes, several rules per text) / removal (incl. absent names) operations, whose installed order must be the denoted set in non-increasing current salience; random: 200 (thorough 5000) calls with up to 7 (10) rules.")
 
 
 def main(run):
